@@ -224,6 +224,7 @@ def plan(tier):
             shards.append({"kind": "pairs", "cat": cat, "part": p, "parts": parts})
         shards.append({"kind": "objects", "cat": cat})
     shards.append({"kind": "services"})
+    shards.append({"kind": "copies"})
     for cat in CATEGORIES:
         for seed in (1, 4242):
             shards.append({"kind": "xproc", "cat": cat, "seed": seed})
@@ -242,6 +243,10 @@ def cases(shard, tier):
             yield {"kind": "object", "cat": shard["cat"], "i": i, "tier": tier}
     elif shard["kind"] == "xproc":
         yield {"kind": "xproc", "cat": shard["cat"], "seed": shard["seed"], "tier": tier}
+    elif shard["kind"] == "copies":
+        for i in range(len(rich_composites())):
+            for how in COPY_METHODS:
+                yield {"kind": "copy", "i": i, "how": how}
     else:
         yield {"kind": "services"}
 
@@ -431,7 +436,92 @@ def check_xproc(case, R):
             return
 
 
+COPY_METHODS = ["pickle0", "pickle2", "pickle5", "copy", "deepcopy", "pickle-twice", "deepcopy-in-container"]
+
+
+def rich_composites():
+    """Composites with every kind of attribute (fields, padding, constants of every carrier type) and every wrapper."""
+    u8, f32, b = pydsdl.UnsignedIntegerType(8, T.S), pydsdl.FloatType(32, T.S), pydsdl.BooleanType()
+
+    def attrs(union=False):
+        a = [pydsdl.Field(u8, "a"), pydsdl.Field(pydsdl.VariableLengthArrayType(b, 3), "arr")]
+        if not union:
+            a.insert(1, pydsdl.PaddingField(pydsdl.VoidType(3)))
+        a += [pydsdl.Constant(u8, "LIMIT", pydsdl.Rational(7)), pydsdl.Constant(f32, "PI", pydsdl.Rational(Fraction(22, 7))), pydsdl.Constant(b, "FLAG", pydsdl.Boolean(True)), pydsdl.Constant(u8, "CH", pydsdl.String("x"))]
+        return a
+
+    def comp(cls, name, union=False, svc=False):
+        return cls(name="vns." + name, version=pydsdl.Version(1, 2), attributes=attrs(union), deprecated=True, fixed_port_id=None if svc else 6200, source_file_path=Path("/nonexistent/vns/6200.%s.1.2.dsdl" % name.split(".")[0]), has_parent_service=svc, doc="doc of " + name)
+
+    s = comp(pydsdl.StructureType, "S")
+    u = comp(pydsdl.UnionType, "U", union=True)
+    outer = pydsdl.StructureType(name="vns.O", version=pydsdl.Version(1, 0), attributes=[pydsdl.Field(comp(pydsdl.StructureType, "S"), "s"), pydsdl.Field(pydsdl.FixedLengthArrayType(pydsdl.DelimitedType(comp(pydsdl.UnionType, "U", union=True), 128), 2), "us"), pydsdl.Constant(u8, "K", pydsdl.Rational(1))], deprecated=True, fixed_port_id=None, source_file_path=Path("/nonexistent/vns/O.1.0.dsdl"), has_parent_service=False)
+    svc = pydsdl.ServiceType(comp(pydsdl.StructureType, "Svc.Request", svc=True), pydsdl.DelimitedType(comp(pydsdl.UnionType, "Svc.Response", union=True, svc=True), 256), 300)
+    return [s, u, pydsdl.DelimitedType(comp(pydsdl.StructureType, "D"), 512), pydsdl.DelimitedType(comp(pydsdl.UnionType, "DU", union=True), 512), outer, svc]
+
+
+def check_copy(case, R):
+    import copy
+
+    x = rich_composites()[case["i"]]
+    how = case["how"]
+    if how.startswith("pickle") and how != "pickle-twice":
+        y = pickle.loads(pickle.dumps(x, protocol=int(how[6:])))
+    elif how == "pickle-twice":
+        y = pickle.loads(pickle.dumps(pickle.loads(pickle.dumps(x))))
+    elif how == "copy":
+        y = copy.copy(x)
+    elif how == "deepcopy":
+        y = copy.deepcopy(x)
+    else:
+        y = copy.deepcopy({"k": [x, x]})["k"][1]
+    R.case(["copy", case["i"], how], nontrivial=True, sample=(how == "deepcopy" and case["i"] == 0))
+
+    def parts(t):
+        return [t.request_type, t.response_type] if isinstance(t, pydsdl.ServiceType) else [t]
+
+    bad = None
+    if not (y == x and x == y and hash(x) == hash(y) and str(x) == str(y) and repr(x) == repr(y)) or dump.composite(x, with_paths=True) != dump.composite(y, with_paths=True):
+        bad = "dump / equality / hash / string form"
+    else:
+        for px, py in zip(parts(x), parts(y)):
+            # the by-name view of the attributes (CompositeType.__getitem__) is part of the object too
+            for a in px.attributes:
+                if not a.name:
+                    continue
+                try:
+                    got = py[a.name]
+                except Exception as ex:  # noqa
+                    bad = "copy[%r] raised %s" % (a.name, type(ex).__name__)
+                    break
+                if dump.attribute(got) != dump.attribute(px[a.name]) or got != a:
+                    bad = "copy[%r] differs" % a.name
+                    break
+            for missing in ("nonexistent", ""):
+                rx = ry = None
+                try:
+                    px[missing]
+                except Exception as ex:  # noqa
+                    rx = type(ex).__name__
+                try:
+                    py[missing]
+                except Exception as ex:  # noqa
+                    ry = type(ex).__name__
+                if rx != ry:
+                    bad = "lookup of %r: original %s, copy %s" % (missing, rx, ry)
+            if [str(f) for f in px.fields_except_padding] != [str(f) for f in py.fields_except_padding] or [str(c) for c in px.constants] != [str(c) for c in py.constants] or py.inner_type.extent != px.inner_type.extent:
+                bad = "accessor lists"
+            if bad:
+                break
+    if bad:
+        R.violation("copy-differs:%s" % how.rstrip("0123456789-twice"), "pickling (and copying) round-trips to an equal object with identical string form, attributes and layout", case, observed=bad, expected=str(x))
+    else:
+        R.outcome("copied")
+
+
 def check_case(case, R):
+    if case["kind"] == "copy":
+        return check_copy(case, R)
     if case["kind"] == "xproc":
         return check_xproc(case, R)
     if case["kind"] == "row":
@@ -443,6 +533,6 @@ def check_case(case, R):
 
 
 def finish(tier, M):
-    if not M.hist.get("eq") or not M.hist.get("ne") or not M.hist.get("list-accessor") or not M.hist.get("pickled"):
+    if not M.hist.get("eq") or not M.hist.get("ne") or not M.hist.get("list-accessor") or not M.hist.get("pickled") or not M.hist.get("copied"):
         raise engine.Vacuous(repr(dict(M.hist)))
     return {"catalogue_sizes": {c: len(catalogue(c, tier)) for c in CATEGORIES}, "bls_pairs_equal_by_approximation_only": M.counters.get("bls_approximate_equalities", 0)}
